@@ -13,8 +13,7 @@ theorem fit_pipeline_callable {C T P : Type} (builders : String → Option (Buil
     (trimF : Trimmer) (rows : List (List Int)) :
     (mkMSM builders lag (.callable f) trim sliding maxN >>= fun m => m.fit trimF rows)
       = pipeline lag sliding maxN trim trimF f rows := by
-  simp only [mkMSM, MSM.fit, pipeline, bind_pure_comp, pure_bind, map_pure, bind, Except.bind, pure,
-    Except.pure]
+  simp only [mkMSM, MSM.fit, pipeline, bind, Except.bind, pure, Except.pure]
   cases hc : liftC (assignsToCounts rows lag maxN sliding) with
   | error e => rfl
   | ok c =>
@@ -191,7 +190,6 @@ theorem readRows_rows (print : Int → String) (parse : String → Option Int)
   | cons p rest ih =>
     simp only [List.map_cons, readRows, rowOf, readRow, hpp, bind, Except.bind, pure, Except.pure]
     have := ih (a ++ [p.1]) (b ++ [p.2])
-    simp only [rowOf] at this
     rw [this]
     simp
 
@@ -250,7 +248,7 @@ theorem roundtrip_sorted (print : Int → String) (parse : String → Option Int
   have : (m.toOriginal.map swap).mergeSort (fun a b => decide (a.1 ≤ b.1)) = m.toOriginal.map swap := by
     apply List.mergeSort_of_pairwise
     rw [List.pairwise_map] at hsorted ⊢
-    exact hsorted.imp (by intro a b h; simpa [swap] using h)
+    exact hsorted.imp (by intro a b h; simp only [swap]; exact decide_eq_true h)
   rw [this, map_swap_swap]
 
 /-! ### save / load -/
